@@ -135,6 +135,7 @@ class NodeCreatorFactory:
         """Returns a new instance of self.node_creator, initialized with
         the same italics_tracker, and position_tracker
         """
+        self.position_tracker.reset()
         return self.node_creator(position_tracker=self.position_tracker)
 
     def from_list(self, roll_rows):
